@@ -473,3 +473,527 @@ Qed.
 
 Lemma start_post_holds : forall fl s f, start_post s f (start fl s f).
 Proof. intros [|] s f; [apply start_composite_post|apply start_decorator_post]. Qed.
+
+(* ================================================================== *)
+(* 4. the invariant of the reconcile loop                               *)
+
+(* one entry per name; every subscription held by an instance is counted *)
+Definition Inv (st : state) : Prop :=
+  (forall n, cnt_name n (insts st) <= 1) /\
+  (forall k, cnt k (subs_of (insts st)) <= cnt k (refs st)).
+
+(* ... and nothing else is counted *)
+Definition Bal (st : state) : Prop :=
+  forall k, cnt k (refs st) = cnt k (subs_of (insts st)).
+
+(* a transition from a state satisfying Inv: Inv again, no panic, and balance
+   is carried over from st0 when d holds *)
+Definition pres (st0 : state) (d : bool) (r : step_result) : Prop :=
+  Inv (state_of r) /\ outcome_of r <> RPanic /\ (d = true -> Bal st0 -> Bal (state_of r)).
+
+(* expose the components of a concrete step result *)
+Ltac unf := unfold state_of, outcome_of, actions_of in *.
+
+Lemma Inv_init : Inv init.
+Proof. split; intros; simpl; lia. Qed.
+
+Lemma Bal_init : Bal init.
+Proof. intro k. reflexivity. Qed.
+
+Lemma pres_same : forall st d o a, Inv st -> o <> RPanic -> pres st d (st, o, a).
+Proof. intros st d o a I O. unfold pres. simpl. auto. Qed.
+
+Lemma stop_mid : forall st n i, Inv st -> ifind n (insts st) = Some i ->
+  exists f, stop i (refs st) = Some f /\
+    (forall k, cnt k f + cnt k (inst_subs i) = cnt k (refs st)) /\
+    Inv (mkState (iremove n (insts st)) f) /\
+    (Bal st -> Bal (mkState (iremove n (insts st)) f)).
+Proof.
+  intros st n i [U L] F. pose proof (subs_split _ _ _ U F) as S.
+  destruct (release_all_ex (inst_subs i) (refs st)) as [f Hf].
+  { intro k. specialize (S k). specialize (L k). lia. }
+  exists f. pose proof (release_all_cnt _ _ _ Hf) as C.
+  split; [exact Hf|]. split; [exact C|]. split.
+  - split; simpl.
+    + intro n'. rewrite cnt_name_iremove. destruct (String.eqb n' n); [lia|apply U].
+    + intro k. specialize (S k). specialize (L k). specialize (C k). lia.
+  - intros B k. simpl. specialize (S k). specialize (C k). specialize (B k). lia.
+Qed.
+
+Lemma start_into_pres : forall fl n s st0 st acts,
+  Inv st -> ifind n (insts st) = None -> (Bal st0 -> Bal st) ->
+  pres st0 (spec_distinctb s) (start_into fl n s st acts).
+Proof.
+  intros fl n s st0 st acts [U L] F B0. unfold start_into.
+  destruct (start_post_holds fl s (refs st)) as [P1 [P2 [P3 P4]]].
+  destruct (start fl s (refs st)) as [g [i| |]]; unfold pres, Inv, Bal; unf; simpl in *.
+  - destruct (P3 i eq_refl) as [_ [Hr Hc]].
+    assert (SI : forall k, cnt k (subs_of (iset n i (insts st)))
+                           = cnt k (subs_of (insts st)) + cnt k (i_subs i)).
+    { intro k. rewrite subs_iset, (ifind_none_iremove _ _ F). unfold inst_subs.
+      rewrite Hr, app_nil_r. reflexivity. }
+    split; [split|split].
+    + intro n'. rewrite cnt_name_iset. destruct (String.eqb n' n); [lia|apply U].
+    + intro k. rewrite SI. specialize (Hc k). specialize (L k). lia.
+    + discriminate.
+    + intros D B k. rewrite SI, (P4 D k), (B0 B k). reflexivity.
+  - split; [split|split].
+    + exact U.
+    + intro k. specialize (L k). specialize (P2 k). lia.
+    + discriminate.
+    + intros D B k. rewrite (P4 D k), (B0 B k). lia.
+  - exfalso. apply P1. reflexivity.
+Qed.
+
+Lemma reconcile_controller_pres : forall fl n s st, Inv st ->
+  pres st (spec_distinctb s) (reconcile_controller fl n s st).
+Proof.
+  intros fl n s st I. unfold reconcile_controller.
+  destruct (ifind n (insts st)) as [i|] eqn:F.
+  - destruct (spec_eqb s (i_spec i)).
+    + apply pres_same; [exact I|discriminate].
+    + destruct (stop_mid _ _ _ I F) as [f [Hf [_ [I' B']]]]. rewrite Hf.
+      apply start_into_pres; [exact I'|apply ifind_iremove_same|exact B'].
+  - apply start_into_pres; auto.
+Qed.
+
+Lemma reconcile_pres : forall fl n l st, Inv st ->
+  pres st (event_distinctb (Reconcile n l)) (reconcile fl n l st).
+Proof.
+  intros fl n l st I. destruct l as [| |s crd]; simpl.
+  - destruct (ifind n (insts st)) as [i|] eqn:F.
+    + destruct (stop_mid _ _ _ I F) as [f [Hf [_ [I' B']]]]. rewrite Hf. unfold pres. unf. simpl.
+      split; [exact I'|]. split; [discriminate|]. intros _. exact B'.
+    + apply pres_same; [exact I|discriminate].
+  - apply pres_same; [exact I|discriminate].
+  - destruct fl; [destruct crd|];
+      try (apply pres_same; [exact I|discriminate]);
+      apply reconcile_controller_pres; exact I.
+Qed.
+
+Lemma related_pres : forall n r st, Inv st -> pres st true (related n r st).
+Proof.
+  intros n r st I. unfold related.
+  destruct (ifind n (insts st)) as [i|] eqn:F; [|apply pres_same; [exact I|discriminate]].
+  destruct (negb (customize_enabled (i_spec i))); [apply pres_same; [exact I|discriminate]|].
+  destruct (negb (ru_known r)); [apply pres_same; [exact I|discriminate]|].
+  destruct (memb (ru_key r) (i_related i)); [apply pres_same; [exact I|discriminate]|].
+  destruct (negb (can_subscribe (refs st) r)); [apply pres_same; [exact I|discriminate]|].
+  destruct I as [U L]. pose proof (subs_split _ _ _ U F) as S.
+  set (i2 := mkInst (i_spec i) (i_subs i) (i_related i ++ [ru_key r])%list).
+  assert (SI : forall k, cnt k (subs_of (iset n i2 (insts st)))
+                         = cnt k (subs_of (insts st)) + (if String.eqb k (ru_key r) then 1 else 0)).
+  { intro k. rewrite subs_iset, (S k). unfold inst_subs, i2. simpl. rewrite !cnt_app. simpl. lia. }
+  unfold pres, Inv, Bal, acquire. unf. simpl. split; [split|split].
+  - intro n'. rewrite cnt_name_iset. destruct (String.eqb n' n); [lia|apply U].
+  - intro k. rewrite SI. specialize (L k). lia.
+  - discriminate.
+  - intros _ B k. rewrite SI, (B k). lia.
+Qed.
+
+Lemma step_pres : forall fl st e, Inv st -> pres st (event_distinctb e) (step fl st e).
+Proof.
+  intros fl st e I. destruct e as [n l|n r]; [apply reconcile_pres|apply related_pres]; exact I.
+Qed.
+
+Lemma run_cons : forall fl st e h, run fl st (e :: h) = run fl (step_state fl st e) h.
+Proof. reflexivity. Qed.
+
+Lemma run_app : forall fl st a b, run fl st (a ++ b)%list = run fl (run fl st a) b.
+Proof. intros fl st a b. unfold run. apply fold_left_app. Qed.
+
+Lemma Inv_run : forall fl h st, Inv st -> Inv (run fl st h).
+Proof.
+  intros fl. induction h as [|e h IH]; intros st I; [exact I|].
+  rewrite run_cons. apply IH. apply (step_pres fl st e I).
+Qed.
+
+Lemma Bal_run : forall fl h st, Inv st -> Bal st -> history_distinctb h = true -> Bal (run fl st h).
+Proof.
+  intros fl. induction h as [|e h IH]; intros st I B D; [exact B|].
+  simpl in D. apply andb_true_iff in D. destruct D as [D1 D2].
+  destruct (step_pres fl st e I) as [I' [_ B']].
+  rewrite run_cons. apply IH; [exact I'|exact (B' D1 B)|exact D2].
+Qed.
+
+Lemma Inv_reach : forall fl h, Inv (run fl init h).
+Proof. intros fl h. apply Inv_run, Inv_init. Qed.
+
+(* ================================================================== *)
+(* 5. the theorems of Properties/C20.v                                  *)
+
+Lemma balancedb_spec : forall st,
+  balancedb st = true <-> (forall r, cnt r (refs st) = cnt r (all_subs st)).
+Proof.
+  intro st. unfold balancedb. rewrite forallb_forall. split.
+  - intros H r. destruct (in_dec string_dec r (refs st ++ all_subs st)%list) as [I|N].
+    + apply Nat.eqb_eq, H, I.
+    + rewrite (not_in_cnt r (refs st)), (not_in_cnt r (all_subs st)); [reflexivity| |];
+        intro J; apply N, in_or_app; auto.
+  - intros H r _. apply Nat.eqb_eq, H.
+Qed.
+
+Lemma one_per_name : forall fl h, one_per_nameb (run fl init h) = true.
+Proof. intros fl h. apply one_per_name_iff, (Inv_reach fl h). Qed.
+
+Lemma no_double_free : forall fl h r,
+  cnt r (all_subs (run fl init h)) <= cnt r (refs (run fl init h)).
+Proof. intros fl h r. apply (proj2 (Inv_reach fl h)). Qed.
+
+Lemma never_panics : forall fl h e, outcome_of (step fl (run fl init h) e) <> RPanic.
+Proof. intros fl h e. apply (step_pres fl _ e (Inv_reach fl h)). Qed.
+
+Lemma one_instance_partial : forall fl h,
+  history_distinctb h = true -> C20_invb (run fl init h) = true.
+Proof.
+  intros fl h D. unfold C20_invb. rewrite one_per_name. simpl. apply balancedb_spec.
+  apply (Bal_run fl h init Inv_init Bal_init D).
+Qed.
+
+(* witnesses of the refutations *)
+Definition cex_rule (k : string) : rule := mkRule k true false true.
+Definition cex_hooks : hooks_cfg :=
+  mkHooks (HookWebhook (mkWh true None false TmoUnset EtagUnset)) HookAbsent HookAbsent.
+Definition cex_leak_spec : spec :=
+  mkSpec 1 [cex_rule "things.ctl.example.com/v1"] [cex_rule "pods.v1"; cex_rule "pods.v1"] (Some cex_hooks).
+Definition cex_leak_fail_spec : spec :=
+  mkSpec 2 [cex_rule "things.ctl.example.com/v1"]
+         [cex_rule "pods.v1"; cex_rule "pods.v1"; mkRule "gizmos.v1" false false true] (Some cex_hooks).
+Definition cex_fs_spec (id : Z) : spec :=
+  mkSpec id [cex_rule "things.ctl.example.com/v1"] [cex_rule "pods.v1"] (Some cex_hooks).
+
+Lemma one_instance_cex : ~ (forall fl h, C20_invb (run fl init h) = true).
+Proof.
+  intro H.
+  specialize (H Composite [Reconcile "c" (LFound cex_leak_spec CrdOk); Reconcile "c" LNotFound]).
+  vm_compute in H. discriminate.
+Qed.
+
+(* with a CRD that passes, the step is reconcileXController *)
+Lemma step_passes : forall fl st n s crd, crd_passesb fl crd = true ->
+  step fl st (Reconcile n (LFound s crd)) = reconcile_controller fl n s st.
+Proof. intros [|] st n s [| | |] C; try discriminate; reflexivity. Qed.
+
+Lemma step_blocked : forall fl st n s crd, crd_passesb fl crd = false ->
+  exists o, step fl st (Reconcile n (LFound s crd)) = (st, o, []) /\ o <> RPanic.
+Proof.
+  intros [|] st n s [| | |] C; try discriminate; simpl; eexists; (split; [reflexivity|discriminate]).
+Qed.
+
+Lemma noop_on_equal_spec : forall fl st n s crd i,
+  ifind n (insts st) = Some i -> spec_eqb s (i_spec i) = true ->
+  let r := step fl st (Reconcile n (LFound s crd)) in
+  state_of r = st /\ actions_of r = [] /\ (crd_passesb fl crd = true -> outcome_of r = ROk).
+Proof.
+  intros fl st n s crd i F E. cbv zeta.
+  destruct (crd_passesb fl crd) eqn:C.
+  - rewrite (step_passes _ _ _ _ _ C). unfold reconcile_controller. rewrite F, E. unf. simpl. auto.
+  - destruct (step_blocked fl st n s crd C) as [o [R _]]. rewrite R. unf. simpl.
+    split; [reflexivity|]. split; [reflexivity|discriminate].
+Qed.
+
+Lemma stop_succeeds : forall fl h n i,
+  ifind n (insts (run fl init h)) = Some i -> exists f, stop i (refs (run fl init h)) = Some f.
+Proof.
+  intros fl h n i F. destruct (stop_mid _ _ _ (Inv_reach fl h) F) as [f [Hf _]]. eauto.
+Qed.
+
+Lemma stop_counts : forall i f g r,
+  stop i f = Some g -> cnt r g + cnt r (inst_subs i) = cnt r f.
+Proof. intros i f g r H. apply (release_all_cnt _ _ _ H). Qed.
+
+Lemma restart_on_change : forall fl st n s crd i f,
+  ifind n (insts st) = Some i -> spec_eqb s (i_spec i) = false -> crd_passesb fl crd = true ->
+  stop i (refs st) = Some f -> startableb fl s f = true ->
+  let r := step fl st (Reconcile n (LFound s crd)) in
+  exists i',
+    start fl s f = (refs (state_of r), Ok i') /\
+    i_spec i' = s /\ i_related i' = [] /\
+    insts (state_of r) = iset n i' (insts st) /\
+    ifind n (insts (state_of r)) = Some i' /\
+    cnt_name n (insts (state_of r)) = 1 /\
+    (forall n', n' <> n -> ifind n' (insts (state_of r)) = ifind n' (insts st)) /\
+    outcome_of r = ROk /\
+    actions_of r = [Stopped n (s_id (i_spec i)); Started n (s_id s)].
+Proof.
+  intros fl st n s crd i f F E C Hf S. cbv zeta.
+  rewrite (step_passes _ _ _ _ _ C). unfold reconcile_controller. rewrite F, E, Hf.
+  unfold start_into. cbn [refs insts]. unfold startableb in S.
+  destruct (start_post_holds fl s f) as [_ [_ [P3 _]]].
+  destruct (start fl s f) as [g [i'| |]]; simpl in S; try discriminate.
+  destruct (P3 i' eq_refl) as [Hs [Hr _]]. exists i'.
+  assert (EI : iset n i' (iremove n (insts st)) = iset n i' (insts st)).
+  { unfold iset. rewrite iremove_idem. reflexivity. }
+  unf. simpl. rewrite EI.
+  split; [reflexivity|]. split; [exact Hs|]. split; [exact Hr|]. split; [reflexivity|].
+  split; [apply ifind_iset_same|].
+  split; [rewrite cnt_name_iset, String.eqb_refl; reflexivity|].
+  split; [intros n' N; apply ifind_iset_other; exact N|].
+  split; reflexivity.
+Qed.
+
+Lemma start_counts : forall fl s f g i r,
+  spec_distinctb s = true -> start fl s f = (g, Ok i) ->
+  cnt r g = cnt r f + cnt r (inst_subs i).
+Proof.
+  intros fl s f g i r D St. destruct (start_post_holds fl s f) as [_ [_ [P3 P4]]].
+  rewrite St in P3, P4. simpl in P3, P4. destruct (P3 i eq_refl) as [_ [Hr _]].
+  rewrite (P4 D r). unfold inst_subs. rewrite Hr, app_nil_r. reflexivity.
+Qed.
+
+Lemma stop_releases_gen : forall fl st n, Inv st ->
+  let r := step fl st (Reconcile n LNotFound) in
+  outcome_of r = ROk /\
+  runningb n (state_of r) = false /\
+  (forall n', n' <> n -> ifind n' (insts (state_of r)) = ifind n' (insts st)) /\
+  (forall k, cnt k (refs (state_of r)) +
+             cnt k (match ifind n (insts st) with Some i => inst_subs i | None => [] end)
+             = cnt k (refs st)).
+Proof.
+  intros fl st n I. cbv zeta. unf. simpl. destruct (ifind n (insts st)) as [i|] eqn:F.
+  - destruct (stop_mid _ _ _ I F) as [f [Hf [C _]]]. rewrite Hf. simpl.
+    split; [reflexivity|]. split.
+    { unfold runningb. simpl. rewrite ifind_iremove_same. reflexivity. }
+    split; [|exact C]. intros n' N. apply ifind_iremove_other. exact N.
+  - simpl. split; [reflexivity|]. split.
+    { unfold runningb. rewrite F. reflexivity. }
+    split; [reflexivity|]. intro k. simpl. lia.
+Qed.
+
+Lemma stop_releases : forall fl h n,
+  let st := run fl init h in
+  let r := step fl st (Reconcile n LNotFound) in
+  outcome_of r = ROk /\
+  runningb n (state_of r) = false /\
+  (forall n', n' <> n -> ifind n' (insts (state_of r)) = ifind n' (insts st)) /\
+  (forall k, cnt k (refs (state_of r)) +
+             cnt k (match ifind n (insts st) with Some i => inst_subs i | None => [] end)
+             = cnt k (refs st)).
+Proof. intros fl h n. apply stop_releases_gen, Inv_reach. Qed.
+
+(* ---- a whole lifetime ------------------------------------------------------------- *)
+
+Lemma related_absent : forall fl n r st,
+  ifind n (insts st) = None -> step_state fl st (Related n r) = st.
+Proof. intros fl n r st F. unfold step_state. simpl. unfold related. rewrite F. reflexivity. Qed.
+
+Lemma run_related_absent : forall fl n rs st,
+  ifind n (insts st) = None -> run fl st (map (Related n) rs) = st.
+Proof.
+  intros fl n. induction rs as [|r rs IH]; intros st F; [reflexivity|].
+  simpl map. rewrite run_cons, (related_absent _ _ _ _ F). apply IH. exact F.
+Qed.
+
+Lemma run_related_present : forall fl n (c : rkey -> nat) m rs st i,
+  ifind n m = None -> insts st = (m ++ [(n, i)])%list ->
+  (forall k, cnt k (refs st) = c k + cnt k (inst_subs i)) ->
+  exists i', insts (run fl st (map (Related n) rs)) = (m ++ [(n, i')])%list /\
+             forall k, cnt k (refs (run fl st (map (Related n) rs))) = c k + cnt k (inst_subs i').
+Proof.
+  intros fl n c m. induction rs as [|r rs IH]; intros st i F Hi Hc.
+  - exists i. simpl. auto.
+  - simpl map. rewrite run_cons.
+    assert (H : exists i2, insts (step_state fl st (Related n r)) = (m ++ [(n, i2)])%list /\
+                forall k, cnt k (refs (step_state fl st (Related n r))) = c k + cnt k (inst_subs i2)).
+    { unfold step_state. simpl. unfold related.
+      assert (Fi : ifind n (insts st) = Some i).
+      { rewrite Hi, ifind_app, F. simpl. rewrite String.eqb_refl. reflexivity. }
+      rewrite Fi.
+      destruct (negb (customize_enabled (i_spec i))); [exists i; simpl; auto|].
+      destruct (negb (ru_known r)); [exists i; simpl; auto|].
+      destruct (memb (ru_key r) (i_related i)); [exists i; simpl; auto|].
+      destruct (negb (can_subscribe (refs st) r)); [exists i; simpl; auto|].
+      eexists. simpl. split.
+      - unfold iset. rewrite Hi, iremove_app, (ifind_none_iremove _ _ F). simpl.
+        rewrite String.eqb_refl, app_nil_r. reflexivity.
+      - intro k. unfold acquire. simpl. rewrite (Hc k). unfold inst_subs. simpl.
+        rewrite !cnt_app. simpl. lia. }
+    destruct H as [i2 [Hi2 Hc2]]. apply (IH _ i2 F Hi2 Hc2).
+Qed.
+
+Lemma create_absent : forall fl n s st,
+  ifind n (insts st) = None -> spec_distinctb s = true ->
+  let st1 := state_of (reconcile_controller fl n s st) in
+  (insts st1 = insts st /\ forall k, cnt k (refs st1) = cnt k (refs st)) \/
+  (exists i, insts st1 = (insts st ++ [(n, i)])%list /\
+             forall k, cnt k (refs st1) = cnt k (refs st) + cnt k (inst_subs i)).
+Proof.
+  intros fl n s st F D. cbv zeta. unfold reconcile_controller, start_into. rewrite F. unf.
+  destruct (start_post_holds fl s (refs st)) as [_ [_ [P3 P4]]]. specialize (P4 D).
+  destruct (start fl s (refs st)) as [g [i| |]]; simpl in *.
+  - right. exists i. destruct (P3 i eq_refl) as [_ [Hr _]].
+    split; [apply iset_fresh; exact F|]. intro k. rewrite P4. unfold inst_subs.
+    rewrite Hr, app_nil_r. reflexivity.
+  - left. split; [reflexivity|]. intro k. rewrite P4. lia.
+  - left. split; [reflexivity|]. intro k. rewrite P4. lia.
+Qed.
+
+Lemma lifetime_gen : forall fl st n s crd rs,
+  ifind n (insts st) = None -> spec_distinctb s = true ->
+  let st' := run fl st (lifetime n s crd rs) in
+  insts st' = insts st /\ (forall k, cnt k (refs st') = cnt k (refs st)).
+Proof.
+  intros fl st n s crd rs F D. cbv zeta. unfold lifetime. rewrite run_cons, run_app.
+  set (st1 := step_state fl st (Reconcile n (LFound s crd))).
+  assert (H1 : (insts st1 = insts st /\ forall k, cnt k (refs st1) = cnt k (refs st)) \/
+               (exists i, insts st1 = (insts st ++ [(n, i)])%list /\
+                          forall k, cnt k (refs st1) = cnt k (refs st) + cnt k (inst_subs i))).
+  { subst st1. unfold step_state. destruct (crd_passesb fl crd) eqn:C.
+    - rewrite (step_passes _ _ _ _ _ C). apply create_absent; assumption.
+    - destruct (step_blocked fl st n s crd C) as [o [R _]]. rewrite R. left. simpl. auto. }
+  destruct H1 as [[Hi Hc]|[i [Hi Hc]]].
+  - assert (F1 : ifind n (insts st1) = None) by (rewrite Hi; exact F).
+    rewrite (run_related_absent _ _ _ _ F1). unfold run. simpl. unfold step_state. simpl.
+    rewrite F1. simpl. auto.
+  - destruct (run_related_present fl n (fun k => cnt k (refs st)) (insts st) rs st1 i F Hi Hc)
+      as [i' [Hi' Hc']].
+    set (st2 := run fl st1 (map (Related n) rs)) in *.
+    unfold run. simpl. unfold step_state. simpl.
+    assert (F2 : ifind n (insts st2) = Some i').
+    { rewrite Hi', ifind_app, F. simpl. rewrite String.eqb_refl. reflexivity. }
+    rewrite F2.
+    destruct (release_all_ex (inst_subs i') (refs st2)) as [g Hg].
+    { intro k. rewrite (Hc' k). lia. }
+    unfold stop. fold (inst_subs i'). rewrite Hg. simpl. split.
+    + rewrite Hi', iremove_app, (ifind_none_iremove _ _ F). simpl.
+      rewrite String.eqb_refl, app_nil_r. reflexivity.
+    + intro k. pose proof (release_all_cnt _ _ _ Hg k) as C. rewrite (Hc' k) in C. lia.
+Qed.
+
+Lemma lifetime_is_identity : forall fl h n s crd rs,
+  let st := run fl init h in
+  runningb n st = false -> spec_distinctb s = true ->
+  let st' := run fl st (lifetime n s crd rs) in
+  insts st' = insts st /\ (forall k, cnt k (refs st') = cnt k (refs st)).
+Proof.
+  intros fl h n s crd rs st R D. apply lifetime_gen; [|exact D].
+  unfold runningb in R. destruct (ifind n (insts st)); [discriminate|reflexivity].
+Qed.
+
+(* ---- a configuration that cannot start ---------------------------------------------- *)
+
+Lemma bad_config_gen : forall fl st n s crd,
+  runningb n st = false -> startableb fl s (refs st) = false ->
+  let r := step fl st (Reconcile n (LFound s crd)) in
+  insts (state_of r) = insts st /\
+  actions_of r = [] /\
+  outcome_of r <> RPanic /\
+  (crd_passesb fl crd = true -> outcome_of r = RErr) /\
+  (spec_distinctb s = true -> forall k, cnt k (refs (state_of r)) = cnt k (refs st)).
+Proof.
+  intros fl st n s crd R S. cbv zeta. unfold runningb in R.
+  destruct (ifind n (insts st)) as [i|] eqn:F; [discriminate|].
+  destruct (crd_passesb fl crd) eqn:C.
+  - rewrite (step_passes _ _ _ _ _ C). unfold reconcile_controller, start_into. rewrite F.
+    unfold startableb in S. destruct (start_post_holds fl s (refs st)) as [P1 [_ [_ P4]]]. unf.
+    destruct (start fl s (refs st)) as [g [i| |]]; simpl in *; [discriminate| |congruence].
+    split; [reflexivity|]. split; [reflexivity|]. split; [discriminate|]. split; [reflexivity|].
+    intros D k. rewrite (P4 D k). lia.
+  - destruct (step_blocked fl st n s crd C) as [o [E O]]. rewrite E. unf. simpl.
+    split; [reflexivity|]. split; [reflexivity|]. split; [exact O|]. split; [discriminate|].
+    intros _ k. reflexivity.
+Qed.
+
+Lemma bad_config_nothing_running : forall fl h n s crd,
+  let st := run fl init h in
+  runningb n st = false -> startableb fl s (refs st) = false ->
+  let r := step fl st (Reconcile n (LFound s crd)) in
+  insts (state_of r) = insts st /\
+  actions_of r = [] /\
+  outcome_of r <> RPanic /\
+  (crd_passesb fl crd = true -> outcome_of r = RErr) /\
+  (spec_distinctb s = true -> forall k, cnt k (refs (state_of r)) = cnt k (refs st)).
+Proof. intros fl h n s crd st. apply bad_config_gen. Qed.
+
+Lemma bad_crd_nothing_started : forall st n s crd,
+  crd_passesb Composite crd = false ->
+  let r := step Composite st (Reconcile n (LFound s crd)) in
+  state_of r = st /\ actions_of r = [] /\ outcome_of r <> RPanic.
+Proof.
+  intros st n s crd C. cbv zeta. destruct (step_blocked Composite st n s crd C) as [o [E O]].
+  rewrite E. unf. simpl. auto.
+Qed.
+
+Lemma bad_config_leak_cex :
+  ~ (forall fl h n s crd, let st := run fl init h in
+       runningb n st = false -> startableb fl s (refs st) = false ->
+       forall k, cnt k (refs (state_of (step fl st (Reconcile n (LFound s crd))))) = cnt k (refs st)).
+Proof.
+  intro H.
+  specialize (H Composite [] "c" cex_leak_fail_spec CrdOk eq_refl eq_refl "pods.v1").
+  vm_compute in H. discriminate.
+Qed.
+
+Lemma bad_update_gen : forall fl st n s crd i f,
+  ifind n (insts st) = Some i -> spec_eqb s (i_spec i) = false -> crd_passesb fl crd = true ->
+  stop i (refs st) = Some f -> startableb fl s f = false ->
+  let r := step fl st (Reconcile n (LFound s crd)) in
+  outcome_of r = RErr /\
+  runningb n (state_of r) = false /\
+  insts (state_of r) = iremove n (insts st) /\
+  actions_of r = [Stopped n (s_id (i_spec i))] /\
+  (spec_distinctb s = true -> forall k, cnt k (refs (state_of r)) = cnt k f).
+Proof.
+  intros fl st n s crd i f F E C Hf S. cbv zeta.
+  rewrite (step_passes _ _ _ _ _ C). unfold reconcile_controller. rewrite F, E, Hf.
+  unfold start_into. cbn [refs insts]. unfold startableb in S.
+  destruct (start_post_holds fl s f) as [P1 [_ [_ P4]]]. unf.
+  destruct (start fl s f) as [g [i'| |]]; simpl in *; [discriminate| |congruence].
+  split; [reflexivity|]. split.
+  { unfold runningb. simpl. rewrite ifind_iremove_same. reflexivity. }
+  split; [reflexivity|]. split; [reflexivity|]. intros D k. rewrite (P4 D k). lia.
+Qed.
+
+Lemma bad_update_stops_old : forall fl h n s crd i f,
+  let st := run fl init h in
+  ifind n (insts st) = Some i -> spec_eqb s (i_spec i) = false -> crd_passesb fl crd = true ->
+  stop i (refs st) = Some f -> startableb fl s f = false ->
+  let r := step fl st (Reconcile n (LFound s crd)) in
+  outcome_of r = RErr /\
+  runningb n (state_of r) = false /\
+  insts (state_of r) = iremove n (insts st) /\
+  actions_of r = [Stopped n (s_id (i_spec i))] /\
+  (spec_distinctb s = true -> forall k, cnt k (refs (state_of r)) = cnt k f).
+Proof. intros fl h n s crd i f st. apply bad_update_gen. Qed.
+
+(* ---- what runs follows the spec ------------------------------------------------------ *)
+
+Lemma follows_spec_cex :
+  ~ (forall fl h n s crd,
+       follows_specb n s (state_of (step fl (run fl init h) (Reconcile n (LFound s crd)))) = true).
+Proof.
+  intro H.
+  specialize (H Composite [Reconcile "c" (LFound (cex_fs_spec 1) CrdOk)] "c" (cex_fs_spec 2) CrdNoStatus).
+  vm_compute in H. discriminate.
+Qed.
+
+Lemma start_into_follows : forall fl n s st acts, ifind n (insts st) = None ->
+  follows_specb n s (state_of (start_into fl n s st acts)) = true.
+Proof.
+  intros fl n s st acts F. unfold follows_specb, start_into. unf.
+  destruct (start_post_holds fl s (refs st)) as [_ [_ [P3 _]]].
+  destruct (start fl s (refs st)) as [g [i| |]]; simpl in *.
+  - rewrite ifind_iset_same. destruct (P3 i eq_refl) as [Hs _]. rewrite Hs. apply spec_eqb_refl.
+  - rewrite F. reflexivity.
+  - rewrite F. reflexivity.
+Qed.
+
+Lemma follows_spec_partial : forall fl st n s crd,
+  crd_passesb fl crd = true ->
+  outcome_of (step fl st (Reconcile n (LFound s crd))) <> RPanic ->
+  follows_specb n s (state_of (step fl st (Reconcile n (LFound s crd)))) = true.
+Proof.
+  intros fl st n s crd C. rewrite (step_passes _ _ _ _ _ C). unfold reconcile_controller. unf.
+  destruct (ifind n (insts st)) as [i|] eqn:F.
+  - destruct (spec_eqb s (i_spec i)) eqn:E.
+    + intros _. unfold follows_specb. simpl. rewrite F. apply spec_eqb_sym. exact E.
+    + destruct (stop i (refs st)) as [f|]; [|simpl; congruence].
+      intros _. apply start_into_follows. simpl. apply ifind_iremove_same.
+  - intros _. apply start_into_follows. exact F.
+Qed.
+
+Lemma follows_spec_decorator : forall h n s crd,
+  follows_specb n s (state_of (step Decorator (run Decorator init h) (Reconcile n (LFound s crd)))) = true.
+Proof.
+  intros h n s crd. apply follows_spec_partial; [reflexivity|apply never_panics].
+Qed.
